@@ -10,6 +10,9 @@ part 1  cyclic value graphs (<= 4 nodes: boxes, mutable vectors, mutable structs
         variants (MC_Shapes_cex_*) are caught.  It prints, per heap, the Scheme text that builds the
         graph and the expectations of the operation matrix; this module replays them with a per-case
         time limit.  A hang or a dead process is a failing verdict attributed to the case.
+        Family "twin": every 2..3-node shape of mixed kinds built twice, next to near-twins and its own
+        unrolling; equal? both orders, the twin as hash key / set member, hash-code agreement.  All
+        twin pairs are replayed in thorough, a seeded stratified sample in quick.
 part 2  depth / width matrix: operation x shape x depth, each case on its own engine.
 
 Every failure is attributed through the case tag the SPEC computed (operation, kinds on cycles,
